@@ -1,3 +1,136 @@
-import Sbdf.Slice
+/-
+  C06 — A truncated file never reads as a complete table.
+  From `Stable` (Sbdf/Lemmas/Stable.lean): a call that succeeds on a prefix of the file succeeds
+  identically on the whole file.
+-/
+import Sbdf.Lemmas.Stable
 namespace Sbdf.C06
+
+/-- a successful primitive read never ends beyond the data -/
+theorem readN_pos_le (n : Nat) (hn : 0 < n) (d : Array UInt8) (pos : Nat) (b : Bytes) (pos' : Nat)
+    (h : readN n d pos = .ok (b, pos')) : pos' ≤ d.size := by
+  unfold readN at h
+  have : ¬ n = 0 := by omega
+  simp only [this, if_false] at h
+  split at h
+  · simp at h; omega
+  · simp at h
+
+theorem readInt8_pos_le (d : Array UInt8) (pos v pos' : Nat) (h : readInt8 d pos = .ok (v, pos')) :
+    pos' ≤ d.size := by
+  simp only [readInt8, P.bind_def] at h
+  obtain ⟨b, p1, h1, h2⟩ := P.bind_eq_ok.mp h
+  simp only [P.pure_eq_ok, Prod.mk.injEq] at h2
+  have := readN_pos_le 1 (by omega) d pos b p1 h1
+  omega
+
+/-- the section reader ends inside the data: an end-of-table marker is only ever reported from
+    three bytes that are really there -/
+theorem secRead_pos_le (d : Array UInt8) (pos v pos' : Nat) (h : secRead d pos = .ok (v, pos')) :
+    pos' ≤ d.size := by
+  simp only [secRead, P.bind_def] at h
+  obtain ⟨_, _, _, h⟩ := P.bind_eq_ok.mp h
+  split at h; · simp at h
+  obtain ⟨_, _, _, h⟩ := P.bind_eq_ok.mp h
+  split at h; · simp at h
+  exact readInt8_pos_le d _ v pos' h
+
+theorem tableEnd_pos_le (c : Cfg) (n : Nat) (sub : Option (List Bool)) (d : Array UInt8) (pos pos' : Nat)
+    (h : readTS c n sub d pos = .ok (none, pos')) : pos' ≤ d.size := by
+  simp only [readTS, P.bind_def] at h
+  obtain ⟨v, p1, h1, h⟩ := P.bind_eq_ok.mp h
+  split at h
+  · simp only [P.pure_eq_ok, Prod.mk.injEq] at h
+    have := secRead_pos_le d pos v p1 h1
+    omega
+  · split at h
+    · simp at h
+    · obtain ⟨_, _, _, h⟩ := P.bind_eq_ok.mp h
+      split at h; · simp at h
+      split at h; · simp at h
+      obtain ⟨_, _, _, h⟩ := P.bind_eq_ok.mp h
+      obtain ⟨_, _, _, h⟩ := P.bind_eq_ok.mp h
+      simp [P.pure_eq_ok] at h
+
+/-- The slice loop on a strict prefix of a file whose full read reaches end-of-table exactly at
+    the end of the file: it never reports end-of-table, it ends in an error, and every slice
+    it returned before is identical to the corresponding slice of the full file. -/
+theorem slices_of_prefix (c : Cfg) (n : Nat) (sub : Option (List Bool)) (f : Bytes) (k : Nat)
+    (hk : k < f.length) (fuel : Nat) :
+    ∀ (pos : Nat) (S : List TS),
+      readSlices c n sub f.toArray fuel pos = (S, .tableEnd f.length) →
+      ∃ S' err t, readSlices c n sub (f.take k).toArray fuel pos = (S', .failed err) ∧ S = S' ++ t := by
+  induction fuel with
+  | zero => intro pos S h; simp [readSlices] at h
+  | succ fuel ih =>
+    intro pos S h
+    simp only [readSlices] at h ⊢
+    cases hp : readTS c n sub (f.take k).toArray pos with
+    | error e => exact ⟨[], e, S, by simp, by simp⟩
+    | ok r =>
+      obtain ⟨o, p1⟩ := r
+      have hfull := (stable_readTS c n sub).out f k pos o p1 hp
+      rw [hfull] at h
+      cases o with
+      | none =>
+        -- a successful read of the end marker on the prefix would end at the file's end
+        simp only [Prod.mk.injEq, LoopEnd.tableEnd.injEq] at h
+        have := tableEnd_pos_le c n sub _ pos p1 hp
+        simp at this
+        omega
+      | some ts =>
+        simp only at h ⊢
+        simp only [Prod.mk.injEq] at h
+        have hS : S = ts :: (readSlices c n sub f.toArray fuel p1).1 := h.1.symm
+        have hE : (readSlices c n sub f.toArray fuel p1).2 = .tableEnd f.length := h.2
+        obtain ⟨S', err, t, h1, h2⟩ := ih p1 (readSlices c n sub f.toArray fuel p1).1 (by rw [← hE])
+        exact ⟨ts :: S', err, t, by rw [h1], by rw [hS, h2]; rfl⟩
+
+/-- how a whole-file read ended -/
+def endsInError (r : FileResult) : Prop :=
+  (∃ e, r.fh = .error e) ∨ (∃ e, r.tm = some (.error e)) ∨ (∃ e, r.last = some (.failed e))
+
+/-- C06: for every file whose full read delivers table metadata `tm`, slices `S` and then
+    end-of-table exactly at the end of the file, and for every strict prefix of it (any column
+    subset, any call bound): reading the prefix ends in an error, never reports end-of-table,
+    and whatever it returned before the error — the table metadata and a leading part of the
+    slices — is identical to what the full file gives. -/
+theorem truncated_never_complete (c : Cfg) (sub : Option (List Bool)) (fuel : Nat) (f : Bytes) (k : Nat)
+    (hk : k < f.length) (v : Nat × Nat) (tm : TM) (S : List TS)
+    (hfull : readFileF c sub fuel f.toArray = ⟨.ok v, some (.ok tm), S, some (.tableEnd f.length)⟩) :
+    let r := readFileF c sub fuel (f.take k).toArray
+    endsInError r ∧ (∀ e, r.last ≠ some (.tableEnd e)) ∧ (∃ t, S = r.slices ++ t) ∧
+    (∀ tm', r.tm = some (.ok tm') → tm' = tm) := by
+  simp only [readFileF] at hfull ⊢
+  cases hfh : fhRead (f.take k).toArray 0 with
+  | error e => exact ⟨.inl ⟨e, rfl⟩, by simp, ⟨S, by simp⟩, by simp⟩
+  | ok r1 =>
+    obtain ⟨v1, p1⟩ := r1
+    have h1 := stable_fhRead.out f k 0 v1 p1 hfh
+    rw [h1] at hfull
+    simp only at hfull ⊢
+    cases htm : readTM c (f.take k).toArray p1 with
+    | error e => exact ⟨.inr (.inl ⟨e, rfl⟩), by simp, ⟨S, by simp⟩, by simp⟩
+    | ok r2 =>
+      obtain ⟨tm1, p2⟩ := r2
+      have h2 := (stable_readTM c).out f k p1 tm1 p2 htm
+      rw [h2] at hfull
+      simp only at hfull ⊢
+      have htmeq : tm1 = tm := by
+        have := congrArg FileResult.tm hfull; simpa using this
+      have hS : (readSlices c tm1.cols.length sub f.toArray fuel p2).1 = S := by
+        have := congrArg FileResult.slices hfull; simpa using this
+      have hE : (readSlices c tm1.cols.length sub f.toArray fuel p2).2 = .tableEnd f.length := by
+        have := congrArg FileResult.last hfull; simpa using this
+      obtain ⟨S', err, t, hp, hcat⟩ := slices_of_prefix c tm1.cols.length sub f k hk fuel p2 S (by rw [← hS, ← hE])
+      rw [hp]
+      exact ⟨.inr (.inr ⟨err, rfl⟩), by simp, ⟨t, hcat⟩, by intro tm' h; simp at h; rw [← h, htmeq]⟩
+
+/-- non-vacuity: the smallest complete file (header, empty table metadata, end marker) meets the
+    hypothesis -/
+example : readFileF {} none 4
+    ([0xdf, 0x5b, 1, 1, 0, 0xdf, 0x5b, 2, 0, 0, 0, 0, 0, 0, 0, 0, 0, 0, 0, 0, 0xdf, 0x5b, 5] : Bytes).toArray =
+    ⟨.ok (1, 0), some (.ok ⟨⟨[], false⟩, []⟩), [], some (.tableEnd 23)⟩ := by
+  rfl
+
 end Sbdf.C06
